@@ -75,3 +75,41 @@ fn collect_all_contract<const DA: bool, const DB: bool>() {
 #[kani::proof] #[kani::unwind(6)] fn k_autodespawn_collect_all_none_dead() { collect_all_contract::<false, false>(); }
 //# id=K.autodespawn.collect_all.both_dead props=C10,C07,C18 strength=bounded shape="2 pending requests, both entities already despawned" tier=off fns=garbage_collect_entities,AutoDespawner::try_recv
 #[kani::proof] #[kani::unwind(6)] fn k_autodespawn_collect_all_both_dead() { collect_all_contract::<true, true>(); }
+
+// ---------------------------------------------------------------------------------------------------------------
+// K.autodespawn.signal: the reference count itself, without a World (C10, C07): the prepared entity's id is sent to the
+// despawner EXACTLY ONCE, at the drop of the LAST clone of its signal, and never while a clone exists.
+// Shape: CLONES in {1,2,3}; clones dropped one by one, the channel polled after every drop.  Real std::sync::Arc.
+// ---------------------------------------------------------------------------------------------------------------
+fn signal_contract<const CLONES: usize>() {
+    let despawner = AutoDespawner::new();
+    let e = Entity::verif_new(kani::any(), kani::any());
+    let other = Entity::verif_new(77, 1);
+    let first = despawner.prepare(e);
+    let bystander = despawner.prepare(other);
+    assert!(first.entity() == e, "AutoDespawner::prepare: the signal stands for the prepared entity");
+    let mut held: [Option<AutoDespawnSignal>; 3] = [None, None, None];
+    let mut i = 1;
+    while i < CLONES { held[i] = Some(first.clone()); i += 1; }
+    held[0] = Some(first);
+    assert!(despawner.try_recv().is_none(), "auto-despawn: nothing is requested while clones exist");
+    let mut i = 0;
+    while i < CLONES {
+        let s = held[i].take();
+        assert!(s.as_ref().unwrap().entity() == e, "AutoDespawnSignal::clone: a clone stands for the same entity");
+        drop(s);
+        let got = despawner.try_recv();
+        if i + 1 < CLONES { assert!(got.is_none(), "auto-despawn: never requested while a clone of the signal exists"); }
+        else { assert!(got == Some(e), "auto-despawn: requested when the LAST clone is dropped, for the prepared entity"); }
+        i += 1;
+    }
+    assert!(despawner.try_recv().is_none(), "auto-despawn: requested exactly once");
+    core::mem::forget(bystander);
+    core::mem::forget(despawner);
+}
+//# id=K.autodespawn.signal.c1 props=C10,C07 strength=complete shape="1 signal, no clone; entity id symbolic" tier=quick fns=AutoDespawner::prepare,AutoDespawner::try_recv,AutoDespawnSignal::entity,AutoDespawnSignalInner::drop
+#[kani::proof] #[kani::unwind(6)] fn k_autodespawn_signal_c1() { signal_contract::<1>(); }
+//# id=K.autodespawn.signal.c2 props=C10,C07 strength=bounded shape="2 clones dropped one by one; entity id symbolic" tier=quick fns=AutoDespawner::prepare,AutoDespawner::try_recv,AutoDespawnSignal::clone,AutoDespawnSignalInner::drop
+#[kani::proof] #[kani::unwind(6)] fn k_autodespawn_signal_c2() { signal_contract::<2>(); }
+//# id=K.autodespawn.signal.c3 props=C10,C07 strength=bounded shape="3 clones dropped one by one; entity id symbolic" tier=quick fns=AutoDespawner::prepare,AutoDespawner::try_recv,AutoDespawnSignal::clone,AutoDespawnSignalInner::drop
+#[kani::proof] #[kani::unwind(6)] fn k_autodespawn_signal_c3() { signal_contract::<3>(); }
